@@ -327,7 +327,7 @@ pub fn property() -> Property {
             },
             SubCheck {
                 name: "generated_positions",
-                driver: Driver::Generated { gen: gen_pos_case, genome_len: 192, quick: 120_000, thorough: 6_000_000 },
+                driver: Driver::Generated { gen: gen_pos_case, genome_len: 192, quick: 300_000, thorough: 8_000_000 },
                 check: check_case,
                 configs: Configs::Both,
                 required: &["in_check", "ep_capture_illegal", "castling_legal", "promotion_available", "has_illegal_pseudolegal", "black_to_move"],
